@@ -182,6 +182,12 @@ def report_mismatches(prop, allm):
         lib.log("   %s %s" % (fp, json.dumps(m["explain"])[:400]))
     if seen_fp:
         lib.log("[%s] violation fingerprints: %s" % (prop, json.dumps(seen_fp)))
+        progs = {}
+        for m in allm:
+            if not (m["rule"].startswith("Calib.") or m["rule"].startswith("Handoff.") or m["rule"] in ("Uncovered", "UnknownClass")):
+                k = str(m["case"]).split("|")[0]
+                progs[k] = progs.get(k, 0) + 1
+        lib.log("[%s] failing programs: %s" % (prop, json.dumps(progs)[:1500]))
     return nviol, tool, sorted(seen_known)
 
 
